@@ -88,4 +88,8 @@ def step (t : Tab) : Ev → Tab
 
 def run (h : List Ev) : Tab := h.foldl step { keys := [], compiled := [] }
 
+/-- `declareFuncs` (run by compilePkgs before a package is compiled): the names of the package's functions get their
+    package-level keys before any body is compiled -/
+def predeclare (t : Tab) (names : List String) : Tab := names.foldl (fun t n => step t (.addKey (.glob n))) t
+
 end Goat.Resolve
